@@ -28,7 +28,14 @@ RULE = ("exhaustive shape space: every assignment of Keep / Clear / Set to the s
         "stream: reference-encoded v1 / v2 / hybrid metafiles with a top-level comment / source / private (with and without the same "
         "key in info) x 12 requests (Set str / list of comment and source, alone and combined with other fields; Set private; Clear) x "
         "library and CLI, judged by the same frame judge and included in the model tie: a failing Set is a violation, only a failing "
-        "Clear of exactly the shape of known finding D11 (the top-level key deleted, info untouched) is routed to D11.")
+        "Clear of exactly the shape of known finding D11 (the top-level key deleted, info untouched) is routed to D11; a "
+        "command-line SPELLING stream: the same flag two or three times on one command line with other flags in between (the request "
+        "is the LAST occurrence of each flag), option=value next to option value, --comment / --source / list-flag values that a shell, "
+        "a formatter or an option parser would treat specially ('~', '~/x', '~user', '$HOME', '%s', a leading dash via option=value, '.', "
+        "'..', blank padding; HOME is set, so an expansion is visible; the value '--' alone is left out, see EC.VERBATIM_EATEN_BY_ARGPARSE) which must arrive verbatim, the metafile placed first or last and "
+        "spelled absolute / relative / './' / 'sub/../' / with '//' or '/./' from the working directory -- on six bases of every "
+        "version, judged by the same frame judge against the request read off the structure of the command line (no stray files next "
+        "to the metafile), and included in the model tie.")
 TRUSTED_BASE = [
     "Coq 8.16.1 kernel; theorems closed under the global context",
     "hand models Model/Edit.v and Model/Bencode.v tied to edit.py / pyben by differential execution on the exhaustive shape space",
@@ -154,6 +161,7 @@ def run(ctx, model_ok):
 
     EC.enumerate_edits(ctx, visit, extra=True)
     foreign_layout(ctx, cases)
+    cli_spellings(ctx, cases)
 
     if model_ok:
         outs = modelrun.run("edit", [(b.hex(), spec) for spec, b, _, _ in cases])
@@ -453,9 +461,78 @@ def foreign_layout(ctx, cases):
                                      "name included -- unchanged", probs[:5])
 
 
+def run_cli_spelling(tmp, base, argv_tail, spelling):
+    """`torrentfile edit <argv>` from the working directory <tmp> on a copy of the base; (after or None, exception or None)"""
+    core.use_repo_in_process()
+    from torrentfile.cli import execute
+    os.makedirs(os.path.join(tmp, "sub"), exist_ok=True)
+    work = os.path.join(tmp, "w.torrent")
+    with open(work, "wb") as fd:
+        fd.write(base)
+    argv = ["edit"] + [EC.spell_metafile(tmp, "w.torrent", spelling) if t == "<metafile>" else t for t in argv_tail]
+    cwd0, exc = os.getcwd(), None
+    try:
+        os.chdir(tmp)
+        trees.quiet(execute, argv)
+    except (Exception, SystemExit) as e:  # noqa
+        exc = e
+    finally:
+        os.chdir(cwd0)
+    after = oracle.read(work) if os.path.isfile(work) else None
+    stray = sorted(x for x in os.listdir(tmp) if x not in ("w.torrent", "sub", "base")) + sorted(os.listdir(os.path.join(tmp, "sub")))
+    return after, exc, stray
+
+
+def judge_cli_spelling(req, before, after, exc, stray):
+    if exc is not None:
+        return [f"the command raised {type(exc).__name__}: {exc}"]
+    if after is None:
+        return ["no metafile at the path that was edited"]
+    probs = frame_problems(req, before, after)
+    if stray:
+        probs.append(f"files appeared next to the metafile: {stray[:4]}")
+    return probs
+
+
+def cli_spellings(ctx, cases):
+    """the command lines of EC.cli_spelling_cases (a flag repeated: the last occurrence is the request; option=value; values with
+       '~', '$', '%', a leading dash, dots, blanks: verbatim; the metafile spelled relative to the working directory) on base
+       metafiles of every version, judged by the frame judge against the request the command line means; also in the model tie"""
+    with core.Scratch("vc07c_") as tmp:
+        os.environ["HOME"] = tmp
+        bases = [b for b in EC.base_metafiles(tmp, ctx.rng, extra=False)
+                 if b[0] in ("v1/all-fields", "v2-asm/no-fields", "hybrid-asm/tracker+source", "ref-v3-tiers", "unsorted-v1", "ref-v2/private0")]
+        raws = [(label, oracle.read(mf)) for label, mf in bases]
+        for i, (classes, argv_tail, req, spelling) in enumerate(EC.cli_spelling_cases(ctx.rng, ctx.tier)):
+            picks = raws if ctx.tier != "quick" else [raws[i % len(raws)], raws[(i + 1) % len(raws)]]
+            for label, before in picks:
+                after, exc, stray = run_cli_spelling(tmp, before, argv_tail, spelling)
+                desc = {"metafile": label, "request": req, "via": "cli", "argv_tail": argv_tail, "metafile_spelling": spelling}
+                ctx.case(key=("cli-spelling", label, tuple(argv_tail), spelling), nontrivial=True,
+                         classes=["via cli", "cli spelling"] + classes + ["metafile spelled " + spelling, "metafile " + label.split("/")[0]],
+                         sample=desc if i == 0 and label == picks[0][0] else None)
+                probs = judge_cli_spelling(req, before, after, exc, stray)
+                if probs:
+                    ctx.fail("edit-cli-spelling", dict(desc, base_hex=before.hex()),
+                             "the metafile at that path edited as the request the command line means (a repeated flag: its last "
+                             "occurrence; every value verbatim), everything else unchanged", probs[:5])
+                elif after is not None:
+                    cases.append((req_spec(req, "cli"), before, after, desc))
+
+
 def classify(failure):
     if failure["kind"] == "foreign-layout":
         return "D11"
+    if failure["kind"] == "edit-cli-spelling":
+        # known finding D42: the value '--' of --comment / --source is eaten by argparse.  Only a command line whose LAST
+        # occurrence of comment or source is exactly `--comment=--` / `--source=--` is routed there, and only when the request
+        # says that this field should have become '--'
+        inp = failure.get("input") or {}
+        tail = [t for t in inp.get("argv_tail", []) if isinstance(t, str)]
+        req = inp.get("request") or {}
+        eaten = [f for f in ("comment", "source") if req.get(f) == "--" and f"--{f}=--" in tail]
+        if eaten:
+            return "D42"
     return None
 
 
@@ -577,6 +654,21 @@ def replay(ctx, data):
                 if kind == "foreign-layout":
                     print("[C07 replay] (a violation here on the unchanged tree is the known finding D11)")
                 rcs.append(_replay_single(inp, tmp, with_model=False))
+        elif kind == "edit-cli-spelling":
+            if not inp or not all(k in inp for k in ("base_hex", "request", "argv_tail", "metafile_spelling")):
+                rcs.append(_cannot(kind, "the recorded input is incomplete"))
+            else:
+                base = bytes.fromhex(inp["base_hex"])
+                print(f"[C07 replay] metafile {inp.get('metafile')} ({len(base)} bytes), working directory = its directory, metafile spelled "
+                      f"{inp['metafile_spelling']}: torrentfile edit {inp['argv_tail']}\n[C07 replay] means the request "
+                      f"{json.dumps(inp['request'], ensure_ascii=False)}")
+                after, exc, stray = run_cli_spelling(tmp, base, inp["argv_tail"], inp["metafile_spelling"])
+                probs = judge_cli_spelling(inp["request"], base, after, exc, stray)
+                for pr in probs:
+                    print("[C07 replay] VIOLATION edit-cli-spelling:", pr)
+                if not probs:
+                    print("[C07 replay] judge: every named field has its value, every other key and the info span are unchanged")
+                rcs.append(1 if probs else 0)
         elif kind in ("edit-history", "edit-sequence-raised"):
             if not inp or "base_hex" not in inp or "sequence" not in inp:
                 rcs.append(_cannot(kind, "the bytes of the base metafile were not recorded in this file"))
